@@ -1038,6 +1038,8 @@ struct Plan {
   t_b: Option<u64>,
   /// perform the scenario's clock step while the first operation is suspended
   live_step: bool,
+  /// reference executions: the second operation gets 2 s instead of the short pause time
+  long_pause: bool,
 }
 
 #[derive(Clone, Debug, PartialEq, Eq)]
@@ -1167,7 +1169,7 @@ fn run_in(w: &Arc<World>, sc: &Scenario, plan: Plan) -> Result<(Outcome, RunInfo
     }
   } else {
     // ---- two threads, forced interleaving ----
-    let t_pause = Duration::from_millis(pause_ms());
+    let t_pause = if plan.long_pause { Duration::from_secs(2) } else { Duration::from_millis(pause_ms()) };
     let spawn_actor = |act: Arc<Actor>, op: POp, base: u64| {
       let w2 = w.clone();
       std::thread::spawn(move || {
@@ -1490,11 +1492,12 @@ pub fn execute(sc: &Scenario) -> Result<CaseReport, Failure> {
       refs.push(("B;A".into(), o));
     }
   } else {
-    // clock-step scenarios: A and B commute (different keys, no operation spanning keys); each took effect
-    // at the time before (t0) or after (t1) the step.  B finished before the step => B at t0.  B not
-    // finished at the step while A was suspended inside a closure that runs under the shard's write
-    // lock (one shard) => B cannot have read the map before A was resumed, which happened after the
-    // step => B at t1.
+    // clock-step scenarios: A and B commute (different keys, no operation spanning keys), so each result
+    // depends only on the time at which that operation read the map: before (t0) or after (t1) the step.
+    // Only the two results are compared (an entry written by an operation that straddles the step may
+    // legitimately carry either time).  B finished before the step => B read at t0.  B not finished at
+    // the step while A was suspended inside a closure under the shard's write lock (one shard) => B
+    // cannot have read the map before A was resumed, which happened after the step => B read at t1.
     let t0 = T0 + sc.setup.iter().map(|s| if let SOp::Advance(ms) = s { *ms as u64 * MS } else { 0 }).sum::<u64>();
     let t1 = t0 + sc.step_ms.unwrap() as u64 * MS;
     let b_locked_out = info.first_reached && info.first_paused_at == Some(EvKind::Closure) && sc.a.closure_under_write_lock() && sc.cfg.shards == 1 && !info.second_done_before_step;
@@ -1508,15 +1511,39 @@ pub fn execute(sc: &Scenario) -> Result<CaseReport, Failure> {
     } else {
       vec![t0, t1]
     };
-    for ta in [t0, t1] {
-      for tb in &b_times {
-        let (o, i) = run_or!(Plan { b_first: false, t_a: Some(ta), t_b: Some(*tb), ..Plan::default() });
-        if i.busy {
-          continue;
-        }
-        refs.push((format!("A@{}ms;B@{}ms", (ta - t0) / MS, (*tb - t0) / MS), o));
-      }
+    // (the calibration run A;B executed both operations at t0)
+    let (late, li) = run_or!(Plan { b_first: false, t_a: Some(t1), t_b: Some(t1), ..Plan::default() });
+    if li.busy {
+      return Ok(rep);
     }
+    let ra_ok = conc.ra == ref_ab.ra || conc.ra == late.ra;
+    let rb_ok = b_times.iter().any(|t| conc.rb == if *t == t0 { ref_ab.rb.clone() } else { late.rb.clone() });
+    if crate::trace_on() {
+      eprintln!("step scenario: conc A={:?} B={:?}; at t0 A={:?} B={:?}; at t1 A={:?} B={:?}; b_times={:?} info={:?}", conc.ra, conc.rb, ref_ab.ra, ref_ab.rb, late.ra, late.rb, b_times, info);
+    }
+    if ra_ok && rb_ok {
+      return Ok(rep);
+    }
+    // C12: "No read API returns an entry at or after its expiry instant ... with stale-while-revalidate a
+    // stale value is served by fetch_with only inside the grace window"
+    let (clause, which, got) = if !rb_ok { ("result_b_at_no_admissible_time", "B", &conc.rb) } else { ("result_a_at_no_admissible_time", "A", &conc.ra) };
+    return Err(fail(
+      "C12",
+      clause,
+      format!(
+        "{} || {}: the clock was stepped by {} ms while A was suspended ({:?}){}; {which} returned {got:?}; at the time before the step the sequential result is A={:?} B={:?}, after the step A={:?} B={:?}; admissible times for B: {:?} ms after the setup",
+        sc.a.name(),
+        sc.b.name(),
+        sc.step_ms.unwrap(),
+        info.first_paused_at,
+        if b_locked_out { " inside a closure under the shard's write lock, B had not returned when the clock was stepped" } else { "" },
+        ref_ab.ra,
+        ref_ab.rb,
+        late.ra,
+        late.rb,
+        b_times.iter().map(|t| (t - t0) / MS).collect::<Vec<_>>()
+      ),
+    ));
   }
   let matches = |refs: &[(String, Outcome)]| refs.iter().any(|(_, r)| diff(&conc, r).is_empty());
   if matches(&refs) {
@@ -1525,14 +1552,17 @@ pub fn execute(sc: &Scenario) -> Result<CaseReport, Failure> {
   // fetch_with is not one atomic step ("miss; load; store"): the references with the loader of that
   // operation held while the other operation runs completely
   if !stepping {
-    if is_fetch_with(&sc.a) && info_ab.first_loader_events > 0 {
-      let (o, i) = run_or!(Plan { b_first: false, first_loader: true, ..Plan::default() });
+    // (the other operation gets plenty of time — it is not blocked by a held loader unless it is a
+    // fetch_with of the same key, which simply joins that load: nothing new to learn there)
+    let joins = is_fetch_with(&sc.a) && is_fetch_with(&sc.b) && sc.a.keys() == sc.b.keys() && sc.cfg.swr_ms.is_none();
+    if is_fetch_with(&sc.a) && info_ab.first_loader_events > 0 && !joins {
+      let (o, i) = run_or!(Plan { b_first: false, first_loader: true, long_pause: true, ..Plan::default() });
       if !i.busy {
         refs.push(("A(miss);B;A(store)".into(), o));
       }
     }
-    if is_fetch_with(&sc.b) && ba_loader_events > 0 {
-      let (o, i) = run_or!(Plan { b_first: true, first_loader: true, ..Plan::default() });
+    if is_fetch_with(&sc.b) && ba_loader_events > 0 && !joins {
+      let (o, i) = run_or!(Plan { b_first: true, first_loader: true, long_pause: true, ..Plan::default() });
       if !i.busy {
         refs.push(("B(miss);A;B(store)".into(), o));
       }
@@ -1545,6 +1575,12 @@ pub fn execute(sc: &Scenario) -> Result<CaseReport, Failure> {
   // ---- report: the closest reference, the clause of the first differing observation ----
   if refs.is_empty() {
     return Ok(rep);
+  }
+  if crate::trace_on() {
+    eprintln!("concurrent: {conc:?}\ninfo: {info:?}");
+    for (n, r) in &refs {
+      eprintln!("reference {n}: {r:?}");
+    }
   }
   let (name, best, d) = refs.iter().map(|(n, r)| (n, r, diff(&conc, r))).min_by_key(|(_, _, d)| d.len()).unwrap();
   let prop_of = |clause: &str| -> &'static str {
